@@ -55,7 +55,7 @@ type c19Link struct {
 }
 
 type c19Layer struct {
-	Links []c19Link `json:"links,omitempty"`
+	Links []c19Link         `json:"links,omitempty"`
 	Root  int               `json:"root,omitempty"` // how the loader's root directory is spelt (os, embed)
 	Kind  string            `json:"kind"`           // inmem | os | http | embed
 	Files map[string]string `json:"files,omitempty"`
